@@ -25,11 +25,11 @@ pub const LANGS: &[LangSpec] = &[
     LangSpec { id: "typescript", line: &["//"], block: &[("/*", "*/"), ("/**", "*/")], prologue: "",
         code: &["const {id}: string = \"{s}\";", "function {id}() {}", "let {id} = '{s}';"] },
     LangSpec { id: "typescriptreact", line: &["//"], block: &[("/*", "*/"), ("/**", "*/")], prologue: "",
-        code: &["const {id} = \"{s}\";", "function {id}() {}"] },
+        code: &["const {id} = \"{s}\";", "function {id}() {}", "const {id} = <a href=\"x\">see http://example.com/{id} for more</a>;", "const {id} = <p>a b // {id} remark</p>;"] },
     LangSpec { id: "javascript", line: &["//"], block: &[("/*", "*/"), ("/**", "*/")], prologue: "",
         code: &["const {id} = \"{s}\";", "function {id}() {}", "var {id} = '{s}';"] },
     LangSpec { id: "javascriptreact", line: &["//"], block: &[("/*", "*/"), ("/**", "*/")], prologue: "",
-        code: &["const {id} = \"{s}\";", "function {id}() {}"] },
+        code: &["const {id} = \"{s}\";", "function {id}() {}", "const {id} = <a href=\"x\">see http://example.com/{id} for more</a>;", "const {id} = <p>a b // {id} remark</p>;"] },
     LangSpec { id: "python", line: &["#"], block: &[], prologue: "",
         code: &["{id} = \"{s}\"", "def {id}(): pass", "{id} = '{s}'", "import {id}"] },
     LangSpec { id: "nix", line: &["#"], block: &[("/*", "*/")], prologue: "",
